@@ -1,9 +1,133 @@
-(* Property C20 — placeholder until the proofs land; see Refine.v *)
-From Coq Require Import List NArith.
-From Engine Require Import Model Spec.
-Import ListNotations.
-Open Scope N_scope.
+(* Property C20 — every expressed Interest resolves exactly once, only with Data that satisfies it; each arriving Data
+   resolves all pending Interests it satisfies; an incoming Interest goes to the handler at the longest matching prefix;
+   a reply is transmitted only before that Interest's deadline.
 
+   All theorems are about [current], the executable model of std/engine/basic as it is in /repo now (Model.v), and
+   quantify over EVERY history [es : list ev] of Express calls, Data / Nack / Interest arrivals, clock advances, timer
+   firings (EFire: the runtime fires a timer whose time has come) and timer closure runs (ERun), handler attach /
+   detach calls and reply calls — i.e. over every interleaving of packet arrivals and timer expirations.
+     hist init es        the events with the observations (callbacks, packets, return values) each produced
+     obs_at es k         the observations of event k
+     hist_cbs h          the Interest ids called back in h, in order
+     expressed evs       the Interests expressed by the events (id, name, CanBePrefix, digest, deadline = clock + lifetime)
+     satisfies i dn dd   Data (name dn, implicit digest dd) satisfies Interest i        (Spec.v)
+     complete s          every timer of s has run or was cancelled
+   Only statements here; proofs are in Trie, PitWalk, PitInv, PitSteps, FibInv, Refine, Readable, Final, Refute. *)
+From Coq Require Import List NArith Bool Arith.
+From Engine Require Import Model Spec Refine Readable Final Refute.
+Import ListNotations.
+
+(* The model's observations are accepted by the spec checker — the same (extracted) checker the runner evaluates on the
+   observations of the Go implementation. *)
+Theorem model_accepted : forall es, exists sp, spec_run sinit (hist init es) = inl sp.
+Proof. exact m_accepted. Qed.
+Print Assumptions model_accepted.
+
+(* Exactly once: no Interest id is ever called back twice; only expressed Interests are called back; and once every
+   timer has run or was cancelled, every expressed Interest has been called back exactly once. *)
+Theorem exactly_once : forall es,
+  NoDup (hist_cbs (hist init es)) /\
+  (forall p, In p (hist_cbs (hist init es)) -> exists i, In i (expressed (map sev_of es)) /\ s_pid i = p) /\
+  (complete (final init es) -> forall i, In i (expressed (map sev_of es)) ->
+     count_occ Nat.eq_dec (hist_cbs (hist init es)) (s_pid i) = 1%nat).
+Proof. exact m_exactly_once. Qed.
+Print Assumptions exactly_once.
+
+(* Result soundness: a callback of event k is for an Interest expressed before k, and
+   - a Data result: event k is the arrival of exactly that Data, and it satisfies the Interest (same name, or longer only
+     with CanBePrefix; digest equal if one was requested);
+   - a Nack result: event k is a Nack for the Interest's own name and digest;
+   - a Timeout result: event k is a timer closure run, the reported time is the clock, and the clock is >= the deadline. *)
+Theorem result_sound : forall es k e p r, nth_error es k = Some e -> In (OCb p r) (obs_at es k) ->
+  exists i, In i (expressed (map sev_of (firstn k es))) /\ s_pid i = p /\
+    match r with
+    | RData dn dd => e = EData dn dd /\ satisfies i dn dd = true
+    | RNack reason => e = ENack (s_name i) (s_dig i) reason
+    | RTimeout t => (exists tid, e = ERun tid) /\ t = now (final init (firstn k es)) /\ (s_deadline i <= t)%N
+    end.
+Proof. exact m_result_sound. Qed.
+Print Assumptions result_sound.
+
+(* Each arriving Data resolves all pending Interests it satisfies: an Interest expressed before event k, not called back
+   before k, and satisfied by the Data arriving at k, is called back at k with that Data. *)
+Theorem data_resolves_all : forall es k dn dd i, nth_error es k = Some (EData dn dd) ->
+  In i (expressed (map sev_of (firstn k es))) -> ~ In (s_pid i) (hist_cbs (hist init (firstn k es))) ->
+  satisfies i dn dd = true -> In (OCb (s_pid i) (RData dn dd)) (obs_at es k).
+Proof. exact m_data_resolves_all. Qed.
+Print Assumptions data_resolves_all.
+
+(* An incoming Interest is handed to the handler attached at the longest matching prefix, where the handler table is the
+   one left by the history before it ([attached]: successful attach adds, successful detach removes) ... *)
+Theorem handler_lpm : forall es k nm life tok, nth_error es k = Some (EInterest nm life tok) ->
+  match lpm (attached (hist init (firstn k es))) nm with
+  | Some hid => exists dl, obs_at es k = [OHandler hid dl]
+  | None => obs_at es k = [ONoHandler]
+  end.
+Proof. exact m_handler_lpm. Qed.
+Print Assumptions handler_lpm.
+
+(* ... and [lpm H nm] is the entry of the longest prefix of nm that has an entry in H. *)
+Theorem lpm_is_longest_prefix : forall H nm,
+  match lpm H nm with
+  | Some hid => exists m, (m <= length nm)%nat /\ name_assoc (firstn m nm) H = Some hid /\
+                          forall m', (m < m')%nat -> (m' <= length nm)%nat -> name_assoc (firstn m' nm) H = None
+  | None => forall m, (m <= length nm)%nat -> name_assoc (firstn m nm) H = None
+  end.
+Proof. exact lpm_spec. Qed.
+Print Assumptions lpm_is_longest_prefix.
+
+(* A reply is transmitted only while the clock has not passed arrival time + lifetime of the Interest it answers. *)
+Theorem reply_only_before_deadline : forall es k iid j, nth_error es k = Some (EReply iid) -> In (OSendData j) (obs_at es k) ->
+  j = iid /\ exists dl, nth_error (in_deadlines (map sev_of (firstn k es))) iid = Some dl /\
+                        (now (final init (firstn k es)) <= dl)%N.
+Proof. exact m_reply_deadline. Qed.
+Print Assumptions reply_only_before_deadline.
+
+(* No panic: no write into a nil child map, no climbing recursion out of fuel. *)
+Theorem engine_no_panic : forall es,
+  panicked (final init es) = false /\ forall k o, nth_error (hist init es) k = Some o -> ~ In OPanic (snd o).
+Proof. exact no_panic. Qed.
+Print Assumptions engine_no_panic.
+
+(* The oracle itself: ANY list of (event, observations) the checker accepts — in particular the implementation's —
+   has the properties above. *)
+Theorem oracle_sound_at_most_once : forall h sp, spec_run sinit h = inl sp -> NoDup (hist_cbs h).
+Proof. exact acc_at_most_once. Qed.
+Print Assumptions oracle_sound_at_most_once.
+
+Theorem oracle_sound_data_resolves_all : forall h sp k dn dd o i, spec_run sinit h = inl sp -> nth_error h k = Some (SData dn dd, o) ->
+  In i (expressed (map fst (firstn k h))) -> ~ In (s_pid i) (hist_cbs (firstn k h)) -> satisfies i dn dd = true ->
+  In (OCb (s_pid i) (RData dn dd)) o.
+Proof. exact acc_data_resolves_all. Qed.
+Print Assumptions oracle_sound_data_resolves_all.
+
+(* The code as pinned violated the property (faithful model of that code; the witnesses were replayed on the real code):
+   data_resolves_all (unsolicited shorter Data; Nack for a longer name), exactly-once (Nack, then a stale timer),
+   Nack for another name, handler_lpm (detach). *)
+Theorem data_resolves_all_refuted : verdict_of pinned w_shorter_data = Some (0%nat, VDataMissed 0).
+Proof. exact data_resolves_all_refuted_pinned. Qed.
+Print Assumptions data_resolves_all_refuted.
+
+Theorem data_resolves_all_refuted_nack : verdict_of pinned w_nack_parent = Some (0%nat, VDataMissed 0).
+Proof. exact nack_parent_refuted_pinned. Qed.
+Print Assumptions data_resolves_all_refuted_nack.
+
+Theorem exactly_once_refuted : verdict_of pinned w_double_callback = Some (0%nat, VNotPending 2).
+Proof. exact exactly_once_refuted_pinned. Qed.
+Print Assumptions exactly_once_refuted.
+
+Theorem handler_lpm_refuted : verdict_of pinned w_detach_child = Some (0%nat, VHandler) /\ verdict_of pinned w_detach_parent = Some (0%nat, VHandler).
+Proof. exact handler_lpm_refuted_pinned. Qed.
+Print Assumptions handler_lpm_refuted.
+
+(* non-vacuity: a history with nested names, a duplicate, CanBePrefix, a digest, Data, Nack, a timeout and handlers, whose
+   final state is complete; all premises of the theorems above are met by it *)
 Example c20_example :
-  snd (run pinned [EExpress [1;2] false None (Some 100); EData [1;2] 7]) = [(0%nat, OSendInt 0); (1%nat, OCb 0 (RData [1;2] 7))].
-Proof. vm_compute. reflexivity. Qed.
+  let es := [EExpress [1;2] false None (Some 100); EExpress [1] true None (Some 50); EExpress [1;2] false (Some 9) (Some 100);
+             EExpress [1;2;3] false None (Some 20); EAttach [1] 7; EInterest [1;5] (Some 30) None;
+             EData [1;2] 9; ENack [1;2;3] None 150; EAdvance 10; EReply 0; EAdvance 200;
+             EFire 0; EFire 1; EFire 2; EFire 3; ERun 0; ERun 1; ERun 2; ERun 3] in
+  hist_cbs (hist init es) = [0; 2; 1; 3]%nat /\
+  forallb (fun t => match tst t with TCancelled | TDone => true | _ => false end) (timers (final init es)) = true /\
+  obs_at es 5 = [OHandler 7 30] /\ obs_at es 9 = [ORet 0; OSendData 0].
+Proof. vm_compute. repeat split; reflexivity. Qed.
